@@ -1,4 +1,4 @@
-#!/usr/bin/env python3-vt
+#!/venv/bin/python
 """Regenerate /verif/MANIFEST.json from the property modules that exist (vmon/props/cNN.py with MANIFEST dict or defaults)."""
 import importlib, json, os, sys
 VERIF = os.path.dirname(os.path.dirname(os.path.abspath(__file__)))
@@ -39,6 +39,6 @@ man = {
     "notes": "All checks import cryoCAT from /repo's working tree at run time. exit 0 held on observed / 1 VIOLATION / 2 INCONCLUSIVE. KNOWN_FINDINGS.txt lists fixed and open findings; selftest/run_mutants.py and seeded/ hold the property-breaking changes the checks were validated against.",
 }
 json.dump(man, open(os.path.join(VERIF, "MANIFEST.json"), "w"), indent=1)
-import jsonschema
-jsonschema.validate(man, json.load(open("/root/.vp/MANIFEST.schema.json")))
+import subprocess
+subprocess.check_call(["python3-vt", "-c", "import json,jsonschema; jsonschema.validate(json.load(open('/verif/MANIFEST.json')), json.load(open('/root/.vp/MANIFEST.schema.json')))"])
 print("MANIFEST.json: %d checks, %d not_applicable; valid" % (len(checks), len(na)))
